@@ -82,6 +82,18 @@ let run_history id path kind ops =
        | "C" :: kk :: mt :: _ ->
          ignore (do_step (OCrash (nat_of_int (int_of_string kk), n_of_int (int_of_string mt))));
          Printf.printf "%s\t%s\t-\n" id i
+       | "TR" :: kk :: mt :: _ ->
+         ignore (do_step (OTear (nat_of_int (int_of_string kk), n_of_int (int_of_string mt))));
+         Printf.printf "%s\t%s\t-\n" id i
+       | "G" :: key :: hash :: salt :: host :: mt :: _ ->
+         let s = { s_key = bytes_of_hex key; s_hash = bytes_of_hex hash; s_salt = salt_of_hex salt; s_host = bytes_of_hex host } in
+         ignore (do_step (OForeign (s, n_of_int (int_of_string mt))));
+         (* the other loader's Store succeeds exactly when the directory exists *)
+         if k = DDir then
+           (match !fs.files p with
+            | Some (c, _) -> Printf.printf "%s\t%s\tG\tok\t%s\n" id i (hex_of_bytes c)
+            | None -> Printf.printf "%s\t%s\tG\tok\tno-file\n" id i)
+         else Printf.printf "%s\t%s\tG\terr\n" id i
        | "X" :: c :: mt :: _ ->
          (* the harness can only write the file when its directory exists *)
          if k = DDir then ignore (do_step (OExt (bytes_of_hex c, n_of_int (int_of_string mt))))
